@@ -10,8 +10,8 @@ open Goml.Dce (keys lookup_cons_self lookup_cons_ne)
 
 attribute [local irreducible] Goml.GoCompile.vn Goml.GoCompile.gid Goml.GoCompile.rn
 
-theorem toGVs_of_args {env : Env} : ∀ {vs : List Val} {gvs : List GVal} {tys : List Ty}, ArgsRel env vs gvs tys →
-    toGVs env vs = some gvs ∧ HasTys env vs tys ∧ vs.length = tys.length ∧ gvs.length = tys.length
+theorem toGVs_of_args {env : Env} {η : Hp} : ∀ {vs : List Val} {gvs : List GVal} {tys : List Ty}, ArgsRel env η vs gvs tys →
+    toGVs env η vs = some gvs ∧ HasTys env η vs tys ∧ vs.length = tys.length ∧ gvs.length = tys.length
   | [], [], [], _ => by simp [toGVs, HasTys]
   | [], [], _ :: _, h => by simp [ArgsRel] at h
   | [], _ :: _, _, h => by simp [ArgsRel] at h
@@ -24,29 +24,29 @@ theorem toGVs_of_args {env : Env} : ∀ {vs : List Val} {gvs : List GVal} {tys :
     simp [toGVs, HasTys, h1, h2, i1, i2, i3, i4]
 
 /-- the value of a struct and its Go image -/
-theorem struct_value {env : Env} (hS : structsClosed env = true) {sn : String} (hsn : sn ∈ goodStructs env)
+theorem struct_value {env : Env} {η : Hp} (hS : structsClosed env = true) {sn : String} (hsn : sn ∈ goodStructs env)
     {d : StructDef} (hd : env.getStruct sn = some d) {vs : List Val} {gvs : List GVal}
-    (hargs : ArgsRel env vs gvs (d.fields.map (·.2))) :
-    toGV env (.structV sn vs) = some (.struct (gid sn) ((d.fields.map fun f => gid f.1).zip gvs)) ∧
-      HasTy env (.structV sn vs) (.struct sn) := by
+    (hargs : ArgsRel env η vs gvs (d.fields.map (·.2))) :
+    toGV env η (.structV sn vs) = some (.struct (gid sn) ((d.fields.map fun f => gid f.1).zip gvs)) ∧
+      HasTy env η (.structV sn vs) (.struct sn) := by
   obtain ⟨h1, h2, _, _⟩ := toGVs_of_args hargs
   refine ⟨by simp [toGV, hd, h1], ?_⟩
   simp only [HasTy, hd]
   exact ⟨trivial, hsn, h2⟩
 
 /-- the fields of a struct value, position by position -/
-theorem struct_field {env : Env} : ∀ {vs : List Val} {gs : List GVal} {tys : List Ty} (i : Nat) {t : Ty},
-    toGVs env vs = some gs → HasTys env vs tys → tys[i]? = some t →
-    ∃ v g, vs[i]? = some v ∧ gs[i]? = some g ∧ toGV env v = some g ∧ HasTy env v t
+theorem struct_field {env : Env} {η : Hp} : ∀ {vs : List Val} {gs : List GVal} {tys : List Ty} (i : Nat) {t : Ty},
+    toGVs env η vs = some gs → HasTys env η vs tys → tys[i]? = some t →
+    ∃ v g, vs[i]? = some v ∧ gs[i]? = some g ∧ toGV env η v = some g ∧ HasTy env η v t
   | [], gs, tys, i, t, _, ht, hi => by
     cases tys <;> simp [HasTys] at ht; simp at hi
   | v :: vs, gs, [], i, t, _, ht, _ => by simp [HasTys] at ht
   | v :: vs, gs, t0 :: tys, i, t, hg, ht, hi => by
     simp only [toGVs] at hg
-    cases h1 : toGV env v with
+    cases h1 : toGV env η v with
     | none => rw [h1] at hg; simp at hg
     | some g =>
-      cases h2 : toGVs env vs with
+      cases h2 : toGVs env η vs with
       | none => rw [h1, h2] at hg; simp at hg
       | some gs' =>
         rw [h1, h2] at hg; simp only [Option.some.injEq] at hg; subst hg
@@ -58,9 +58,9 @@ theorem struct_field {env : Env} : ∀ {vs : List Val} {gs : List GVal} {tys : L
           exact struct_field i h2 ht.2 hi
 
 /-- the fields of a compiled struct literal evaluate to the declared names zipped with the values -/
-theorem fields_both {env : Env} (P : Prog) {F : GFile} (ht : TyLink env F) {Γ : Ctx} {ρ : Sem.Env} {gρ : GEnv}
-    (hr : EnvRel env Γ ρ gρ) : ∀ {args : List Imm} {fields : List (String × Ty)}, argsOK env Γ args (fields.map (·.2)) = true →
-    ∃ vs gvs, ArgsRel env vs gvs (fields.map (·.2)) ∧
+theorem fields_both {env : Env} {η : Hp} (P : Prog) {F : GFile} (ht : TyLink env F) {Γ : Ctx} {ρ : Sem.Env} {gρ : GEnv}
+    (hr : EnvRel env η Γ ρ gρ) : ∀ {args : List Imm} {fields : List (String × Ty)}, argsOK env Γ args (fields.map (·.2)) = true →
+    ∃ vs gvs, ArgsRel env η vs gvs (fields.map (·.2)) ∧
       (∀ gw, EvFS F gρ gw (structFieldsOf fields (compileImms env args)) (.ok ((fields.map fun f => gid f.1).zip gvs) gw)) ∧
       (∀ n w, Sem.evalList n P ρ w (args.map Imm.toExpr) = .fail .fuel w ∨
               Sem.evalList n P ρ w (args.map Imm.toExpr) = .ok vs w) := by
@@ -85,7 +85,7 @@ theorem fields_both {env : Env} (P : Prog) {F : GFile} (ht : TyLink env F) {Γ :
       obtain ⟨v, gv, hs, hg, hrel, hty⟩ := imm_both P ht ha hr
       obtain ⟨vs, gvs, hrs, hgs, hss⟩ := ih has
       have ht := scalarEq_eq hta
-      refine ⟨v :: vs, gv :: gvs, ⟨hrel, by show HasTy env v f.2; rw [← ht]; exact hty, hrs⟩, fun gw => ?_, fun n w => ?_⟩
+      refine ⟨v :: vs, gv :: gvs, ⟨hrel, by show HasTy env η v f.2; rw [← ht]; exact hty, hrs⟩, fun gw => ?_, fun n w => ?_⟩
       · have := evf_cons (n := gid f.1) (hg gw) (hgs gw)
         simpa [structFieldsOf, compileImms] using this
       · cases n with
@@ -151,9 +151,9 @@ theorem slit_struct {env : Env} {F : GFile} (hS : structsClosed env = true) {sn 
 /-! ### enum values -/
 
 /-- the payload fields of a compiled variant literal evaluate to `_i, _{i+1}, …` zipped with the values -/
-theorem tfields_both {env : Env} (P : Prog) {F : GFile} (ht : TyLink env F) {Γ : Ctx} {ρ : Sem.Env} {gρ : GEnv}
-    (hr : EnvRel env Γ ρ gρ) : ∀ {args : List Imm} {tys : List Ty} (i : Nat), argsOK env Γ args tys = true →
-    ∃ vs gvs, ArgsRel env vs gvs tys ∧
+theorem tfields_both {env : Env} {η : Hp} (P : Prog) {F : GFile} (ht : TyLink env F) {Γ : Ctx} {ρ : Sem.Env} {gρ : GEnv}
+    (hr : EnvRel env η Γ ρ gρ) : ∀ {args : List Imm} {tys : List Ty} (i : Nat), argsOK env Γ args tys = true →
+    ∃ vs gvs, ArgsRel env η vs gvs tys ∧
       (∀ gw, EvFS F gρ gw (tupleFields i (compileImms env args)) (.ok ((fieldNames i tys.length).zip gvs) gw)) ∧
       (∀ n w, Sem.evalList n P ρ w (args.map Imm.toExpr) = .fail .fuel w ∨
               Sem.evalList n P ρ w (args.map Imm.toExpr) = .ok vs w) := by
@@ -194,11 +194,11 @@ theorem tfields_both {env : Env} (P : Prog) {F : GFile} (ht : TyLink env F) {Γ 
             · right; rw [h2]
 
 /-- the value of an enum constructor application and its Go image -/
-theorem enum_value {env : Env} {n : String} (hn : n ∈ goodEnums env) {d : EnumDef} (hd : env.getEnum n = some d)
+theorem enum_value {env : Env} {η : Hp} {n : String} (hn : n ∈ goodEnums env) {d : EnumDef} (hd : env.getEnum n = some d)
     {idx : Nat} {vname : String} {tys : List Ty} (hv : d.variants[idx]? = some (vname, tys))
-    {vs : List Val} {gvs : List GVal} (hargs : ArgsRel env vs gvs tys) :
-    toGV env (.enumV n idx vs) = some (.struct (variantGoName env n vname) ((fieldNames 0 tys.length).zip gvs)) ∧
-      HasTy env (.enumV n idx vs) (.enum n) := by
+    {vs : List Val} {gvs : List GVal} (hargs : ArgsRel env η vs gvs tys) :
+    toGV env η (.enumV n idx vs) = some (.struct (variantGoName env n vname) ((fieldNames 0 tys.length).zip gvs)) ∧
+      HasTy env η (.enumV n idx vs) (.enum n) := by
   obtain ⟨h1, h2, _, h4⟩ := toGVs_of_args hargs
   refine ⟨by simp [toGV, hd, h1, hv, h4], ?_⟩
   simp only [HasTy, hd, hv]
